@@ -618,7 +618,10 @@ func TestC24(t *testing.T) {
 		}
 		adds := randomAdds(r, mode)
 		var procs []procRec
-		if i%2 == 0 { // deployments in flight under names related to the workloads' names
+		// deployments in flight under names related to the workloads' names.  Not combined with
+		// '/'-and-dot names: a ".." element lets a key escape its root, and the model keeps the
+		// /deploy and /processing key spaces apart (exact only while no key escapes).
+		if i%2 == 0 && mode != 1 {
 			procs = randomProcs(r, adds)
 		}
 		for _, e := range envs {
